@@ -281,6 +281,34 @@ def _rest(case_id, res, seed, replay_dir, log, run, s, apps, routine, ctrl, clip
     errs = [p for p in probes if p["tag"] == "err"]
     ctrls = [p for p in probes if p["tag"] == "ctrl"]
     interps = [p for p in probes if p["tag"] in ("interp", "interp_at")]
+    if len(ctrls) != len(steps) and len(steps) == len(errs):
+        # the scripted controller handed to the routine is not the one the encoded driver applies: structural
+        # discrepancy in the encoding itself; replay on the real driver and report it instead of reasoning further
+        name = "the caller's controller is applied once per attempt"
+        params = {"T": [0.0, 1.0] if nc == 1 else [0.0, 0.5, 1.0], "dt0": 0.1, "eps": 1e-8,
+                  "safety": float(Fraction(str(safety))), "fmin": float(Fraction(str(fmin))), "fmax": float(Fraction(str(fmax))),
+                  "x0": 0.0}
+        ob = {"id": f"C06/{case_id}/{name}", "queries": 0, "nontrivial": True,
+              "note": f"{len(steps)} attempt sites but {len(ctrls)} controller applications in the traced driver"}
+        info = {"params": params, "error_profile": [], "obligation_name": name}
+        try:
+            log_, ts, ns = concrete_run(case_id, params, {})
+            bad = check_log(case_id, params, log_, ts, ns)
+            info["replay_violations"] = [str(b)[:300] for b in bad[:5]]
+            hit = any(b[0] == name for b in bad)
+        except Exception as ex:  # noqa: BLE001
+            info["replay_error"] = repr(ex); hit = False
+        ob["counterexample"] = info
+        ob["status"] = "violated" if hit else "inconclusive"
+        if hit and replay_dir:
+            os.makedirs(replay_dir, exist_ok=True)
+            path = os.path.join(replay_dir, (ob["id"].replace("/", "__").replace(" ", "_"))[:150] + ".json")
+            with open(path, "w") as f:
+                json.dump({"case": case_id, "obligation": ob["id"], **info}, f, indent=1)
+            ob["replay"] = path
+        res["obligations"].append(ob)
+        log(f"  [C06/{case_id}] {name}: {ob['status']}")
+        return
     assert len(steps) == len(errs) == len(ctrls), (len(steps), len(errs), len(ctrls))
     n = len(steps)
     res["encoded"].update({"attempt_sites": n, "interp_sites": len(interps)})
@@ -473,6 +501,11 @@ def check_log(case_id, params, log_, ts, ns):
     bad = []
     attempts = [e for e in log_ if e["tag"] == "step"]
     tol = 1e-12
+    for a in attempts:
+        if "ctrl_in" not in a:
+            bad.append(("the caller's controller is applied once per attempt", a))
+            break
+    attempts = [a for a in attempts if "ctrl_in" in a] if all("ctrl_in" in a for a in attempts) else []
     for a, b in zip(attempts, attempts[1:]):
         if a["err"] < 1:
             if abs(b["t"] - a["t"]) > tol or not (b["dt"] < a["dt"]) or b["x"] != a["x"] or b["ns"] != a["ns"]:
